@@ -8,7 +8,10 @@
  *    janet_continue_signal inside ev.c only), which logs  (tick, fiber, sched_id, signal, value) -> signal out.
  *  - accessors for the file-static structures (channel pending queues, timer heap, task queue).
  *
- * Usage:  evwrap <scenario-file> [--early] [--late K]      scenario-file:  "@@@ <id>\n<janet source>\n" ...
+ * Usage:  evwrap <scenario-file> [--early] [--late K] [--gc]      scenario-file:  "@@@ <id>\n<janet source>\n" ...
+ *         --gc: a full garbage collection every time the loop polls (janet_collect in the epoll_wait wrapper): the collector
+ *         then delivers JANET_ASYNC_EVENT_MARK to the callback of every listening fiber between any two events; the log must
+ *         be the same as without it.
  * Every scenario runs in a forked child with its own janet_init (crash / hang isolation).
  */
 #define _GNU_SOURCE
@@ -45,6 +48,7 @@ static int timer_armed = 0;
 static int64_t timer_deadline = 0;
 static int early_wake = 0;        /* deliver one spurious timer wake-up one tick early */
 static int early_done = 0;
+static int gc_every_poll = 0;     /* --gc */
 static int late_wake = 0;         /* the loop wakes up this many ms after the armed deadline (a busy machine) */
 static FILE *lg;                  /* log stream (memory) */
 static char *lgbuf; static size_t lgsize;
@@ -177,6 +181,7 @@ static void finish(const char *status) {
 int verif_epoll_wait(int epfd, struct epoll_event *events, int max, int timeout) {
     int n;
     if (IN_WORKER()) return epoll_wait(epfd, events, max, timeout);
+    if (gc_every_poll) janet_collect();
     do { n = epoll_wait(epfd, events, max, 0); } while (n == -1 && errno == EINTR);
     if (n != 0) { if (n > 0) log_poll(events, n); return n; }
     if (timer_armed) {
@@ -335,6 +340,7 @@ int main(int argc, char **argv) {
     if (argc < 2) return 2;
     for (int i = 2; i < argc; i++) {
         if (!strcmp(argv[i], "--early")) early_wake = 1;
+        if (!strcmp(argv[i], "--gc")) gc_every_poll = 1;
         if (!strcmp(argv[i], "--late") && i + 1 < argc) late_wake = atoi(argv[++i]);
     }
     FILE *f = fopen(argv[1], "r");
